@@ -38,6 +38,45 @@ Theorem C37_private_cache_value_refuted :
 Proof. vm_compute. discriminate. Qed.
 Print Assumptions C37_private_cache_value_refuted.
 
+(* Recorded finding C37-F1 (also C29-F2): the macros of a module imported without context run
+   against the module's own context, which lives in the module cache; an {% autoescape %} block
+   in such a macro stores into that shared eval context (save / set ... revert).  Cell 0 of the
+   module cache is the autoescape flag (1 = on).  Task 1 enters its `autoescape false` block
+   (saves 1, stores 0) and is suspended, task 2 enters (saves 0, stores 0), task 1 leaves
+   (restores 1), task 2 continues: it reads 1 inside its `autoescape false` block - not what it
+   reads when rendered alone - and finally restores 0, which every later render then sees. *)
+Theorem C37_shared_module_context_refuted :
+  let G := fun (_ : loc) (_ : heap) => 0%N in
+  let flag := (ModuleCache, 0%N) in
+  let enter := [PPriv 5 (fun _ h => h flag); PCacheWrite flag (fun _ _ => 0%N)] in      (* save; autoescape := false *)
+  let body := [PPriv 0 (fun _ h => h flag)] in                                            (* a filter reads the flag *)
+  let leave := [PCacheWrite flag (fun v _ => v 5%N)] in                                    (* revert *)
+  let h0 := fun l : loc => if loc_eqb l flag then 1%N else 0%N in
+  let s := tag 1 enter ++ tag 2 enter ++ tag 1 (body ++ leave) ++ tag 2 (body ++ leave) in
+  footprint_ok s = false /\
+  run_sched G s h0 (PerRender 2, 0%N) <> run_sched G (only 2 s) h0 (PerRender 2, 0%N) /\
+  run_sched G s h0 flag <> h0 flag /\
+  run_sched G (tag 1 (enter ++ body ++ leave) ++ tag 2 (enter ++ body ++ leave)) h0 flag = h0 flag.
+Proof. vm_compute. repeat split; try discriminate; reflexivity. Qed.
+Print Assumptions C37_shared_module_context_refuted.
+
+(* What survives it (the _partial statement) is C37_task_noninterference itself: its premise
+   sched_ok includes footprint_ok, which excludes exactly the PCacheWrite / PData steps; i.e. task
+   non-interference holds for all task sets in which no macro of a cached module contains a
+   scoped eval-context modifier. *)
+Theorem C37_task_noninterference_partial :
+  forall (G : loc -> heap -> N), C29.cache_fn_ok G ->
+  forall (s : list (N * pstep)) (h : heap),
+  Forall (fun ts => match snd ts with PCacheWrite _ _ | PData _ _ => False | PFill c => is_cache c = true | PPriv _ _ => True end) s ->
+  sched_oblivious G s -> Forall (fun ts => view_ext (snd ts)) s -> cache_inv G h ->
+  forall (task : N) (n : N), run_sched G s h (PerRender task, n) = run_sched G (only task s) h (PerRender task, n).
+Proof.
+  intros G HG s h F O V I task. apply (noninterference G HG task s h); [|exact I].
+  split; [|split; assumption]. unfold footprint_ok. apply forallb_forall. intros ts Hin.
+  rewrite Forall_forall in F. specialize (F ts Hin). destruct (snd ts); cbn; try contradiction; try reflexivity. exact F.
+Qed.
+Print Assumptions C37_task_noninterference_partial.
+
 (* non-vacuity: three tasks, the second suspended between its segments while the others run *)
 Example C37_example :
   let G := fun (c : loc) (h : heap) => (h (TplGlobals, 0%N) + 1)%N in
